@@ -1184,6 +1184,7 @@ def crypto_history(seed, nops=40):
     use = "104=01 105=01 108=01 10a=01 162=01 103=00"
     aes = [h.op(f"create @{k} 0={U(4)} 100={U(0x1f)} 3={hx(h.new_label())} 11={rb(n)} {use}") for n in (16, 24, 32)]
     gens = [h.op(f"create @{k} 0={U(4)} 100={U(0x10)} 3={hx(h.new_label())} 11={rb(n)} {use}") for n in (1, 20, 64, 65, 128, 200)]
+    des = [h.op(f"create @{k} 0={U(4)} 100={U(kt)} 3={hx(h.new_label())} 11={rb(n)} {use}") for kt, n in ((0x15, 24), (0x14, 16))]; h.minted += 2
     R = RSA1024
     rpub = h.op(f"create @{k} 0={U(2)} 100={U(0)} 3={hx(h.new_label())} 120={R['n']} 122=010001 10a=01 104=01")
     rprv = h.op(f"create @{k} 0={U(3)} 100={U(0)} 3={hx(h.new_label())} 120={R['n']} 122=010001 123={R['d']} 124={R['p']} 125={R['q']} 126={R['dp']} 127={R['dq']} 128={R['qi']} 108=01 105=01 2=01 103=00 162=01")
@@ -1201,6 +1202,9 @@ def crypto_history(seed, nops=40):
             mech = rng.choice(["1081", f"1082:{rb(16)}", f"1085:{rb(16)}", f"1086:ctr({rng.choice([128, 64, 32, 16, 8])},{rng.choice([rb(16), 'ff' * 16, '00' * 15 + 'fe'])})",
                                f"1087:gcm({rb(rng.choice([12, 12, 1, 16, 60]))},{rng.choice(['', rb(5), rb(16), rb(33)]).replace('.', '')},{rng.choice([128, 128, 96, 64, 32])})"])
             n = rng.choice(lens if mech[:4] in ("1085", "1086", "1087") else [0, 16, 32, 48, 64, 17])
+            if rng.random() < 0.25:       # triple DES (2 and 3 keys), 8-byte blocks
+                key = rng.choice(des); mech = rng.choice(["132", f"133:{rb(8)}", f"136:{rb(8)}"])
+                n = rng.choice([0, 1, 7, 8, 9, 16, 23, 24, 40]) if mech[:3] == "136" else rng.choice([0, 8, 16, 24, 40, 12])
             ptx = rb(n)
             h.op(f"encinit @{k} {mech} @{key}")
             outs = []
@@ -1237,6 +1241,7 @@ def crypto_history(seed, nops=40):
                 mech = rng.choice(["221", "256", "251", "261", "271"]); key = rng.choice(gens)
             elif c < 0.6:
                 mech = "108a"; key = rng.choice(aes)
+                if rng.random() < 0.3: mech = "138"; key = rng.choice(des)
             elif c < 0.85:
                 mech = rng.choice(["1", "6", "46", "40", "41", "42"]); key = rprv
                 if mech == "1": data = rb(rng.choice([0, 20, 35, 51, 117]))
